@@ -49,7 +49,13 @@ func GenerateViews(r *lp.Rng, index int) *Design {
 			if a.Type.Prim == "Int" && r.Intn(3) == 0 {
 				a.Val = &Validation{Min: fp(0)}
 			}
-			add(pnames[k], a, r.Intn(3) == 0)
+			req := r.Intn(3) == 0
+			if req && index%4 == 2 {
+				// required AND defaulted: the client must still refuse a response that lacks it
+				a.HasDef = true
+				a.Default = map[string]any{"String": "dflt", "Int": 3, "Boolean": true, "Float64": 1.5, "Int64": 5, "UInt32": 2}[a.Type.Prim]
+			}
+			add(pnames[k], a, req)
 		}
 		if r.Intn(2) == 0 || index%3 == 1 {
 			// in every third design the array is required (a service may still return it nil)
@@ -155,6 +161,13 @@ func GenerateViews(r *lp.Rng, index int) *Design {
 			m.ResultView = lp.Pick(r, infos[ti].views)
 		}
 		svc.Methods = append(svc.Methods, m)
+	}
+	if index%3 == 2 && len(infos[0].views) > 1 {
+		// the request body is streamed to the service (SkipRequestBodyEncodeDecode), the result is viewed
+		svc.Methods = append(svc.Methods, &Method{Name: "upload", SkipRequestBody: true,
+			Payload: &Att{Type: &Type{IsObject: true, Object: []*Field{{Name: "tag", Att: &Att{Type: &Type{Prim: "String"}}}}}},
+			Result:  &Att{Type: &Type{Ref: names[0]}},
+			HTTP:    &HTTPMap{Verb: "POST", Path: "/upload", Params: []Mapped{{Attr: "tag"}}}})
 	}
 	d.Services = []*Service{svc}
 	return d
